@@ -3,12 +3,12 @@ CONSTANTS
     DataUnits = 3
     Sizes = {1, 2}
     MaxAllocs = 3
-    MaxWrites = 3
-    Schemas = {"strings", "mixed", "dict_deep"}
-    RowClasses = {"one", "many"}
+    MaxWrites = 4
+    Schemas = {"strings", "mixed"}
+    RowClasses = {"many"}
     MdClasses = {"some"}
     PtrClasses = {"exact", "wrap_sum"}
-    Writers = {"direct", "maybe"}
+    Writers = {"direct"}
     Variant = {}
     Mode = "tree"
     Depth = 5
